@@ -1214,7 +1214,7 @@ def chain_part(nontrivial, rule_tail, quick=600, thorough=20000):
     return {
         "name": "compose",
         "harness": "chain",
-        "cases_header": HDR.format(mods="Transport Chain Checks.Chaincheck"),
+        "cases_header": HDR.format(mods="Transport Chain ChainRespSpec Checks.Chaincheck"),
         "case_term": lambda c: f"({c['cfg']}, {c['ops']}, {c['obs']})",
         "quick": {"count": quick},          # 600 scripts: ~3 s harness + ~2 s coqc warm
         "thorough": {"count": thorough},
@@ -1283,6 +1283,28 @@ for _pid, _part, _note in (
     _sp["trusted_base"] = _sp["trusted_base"] + CHAIN_TB
     _sp["level_text"] = _sp["level_text"] + _note
 
+
+
+# end-to-end response integrity over the composition (coq/ChainResp*.v): C01 and C08 get the compose part too
+RESP_NOTE = (
+    " END-TO-END over the composition (part compose, coq/ChainResp*.v; monitor ChainRespSpec.c01c_ok on every real "
+    "chain trace): proved for every depth and op list - C01_chain_value_provenance (a head call resolving Ok v means a "
+    "node-0 handler finished with v, and a non-leaf handler finishing Ok v means a handler of the next node did: v is "
+    "a leaf's value; no hypothesis), C08_chain_yield_written (a yielded request was written into that link with that id "
+    "and body; incarnation numbers count yields), C08_chain_start_once (a handler starts only for a yielded request, at "
+    "most once), C08_chain_yield_once (an id is yielded at most once per link, untainted runs, chain_no_wrap), "
+    "C01_chain_once_untainted (no head call resolves twice, runs that end untainted). Checked on every real trace "
+    "only, not proved: the producing handler served the caller's own request (rm_body), and 'resolves once' on "
+    "tainted runs.")
+for _pid in ("C01", "C08"):
+    _sp = SPECS[_pid]
+    _sp["parts"] = (_sp.get("parts") or [{}]) + [chain_part(
+        lambda c: "head:reply" in c["tags"] and ("yield@node2" in c["tags"] or "yield@node3" in c["tags"]),
+        "a head call of the real chain resolved with a reply that travelled back across at least one hop",
+        quick=300, thorough=8000)]
+    _sp["coq_targets"] = _sp["coq_targets"] + ["Checks/Chaincheck.vo"]
+    _sp["trusted_base"] = _sp["trusted_base"] + CHAIN_TB
+    _sp["level_text"] = _sp["level_text"] + RESP_NOTE
 
 # ---------------------------------------------------------------------------------------------
 # Translator side condition shared by C16 and C09: the panic-site inventory of the anchored
